@@ -1085,7 +1085,10 @@ class HLGExpr(Expr):
 class _HLGExprGroup(HLGExpr):
     # Identical to HLGExpr
     # Used internally to determine how output keys are supposed to be returned
-    pass
+    # ``positions`` holds, for every member of the group, the position its keys
+    # have in the ``__dask_keys__`` of the surrounding ``_HLGExprSequence``
+    _parameters = HLGExpr._parameters + ["positions"]
+    _defaults = {**HLGExpr._defaults, "positions": None}
 
 
 class _HLGExprSequence(Expr):
@@ -1111,12 +1114,16 @@ class _HLGExprSequence(Expr):
         from dask.highlevelgraph import HighLevelGraph
 
         groups = toolz.groupby(
-            lambda x: x.low_level_optimizer if isinstance(x, HLGExpr) else None,
-            self.operands,
+            lambda ix: (
+                ix[1].low_level_optimizer if isinstance(ix[1], HLGExpr) else None
+            ),
+            enumerate(self.operands),
         )
         exprs = []
         changed = False
-        for optimizer, group in groups.items():
+        for optimizer, members in groups.items():
+            positions = [i for i, _ in members]
+            group = [expr for _, expr in members]
             if len(group) > 1:
                 graphs = [expr.hlg for expr in group]
 
@@ -1127,6 +1134,7 @@ class _HLGExprSequence(Expr):
                     low_level_optimizer=optimizer,
                     output_keys=[v.__dask_keys__() for v in group],
                     postcompute=[g.postcompute for g in group],
+                    positions=positions,
                 )
                 exprs.append(hlg_group)
             else:
@@ -1184,12 +1192,26 @@ class _HLGExprSequence(Expr):
 
     def __dask_keys__(self) -> list:
         all_keys = []
+        positions: list[int | None] = []
         for op in self.operands:
             if isinstance(op, _HLGExprGroup):
-                all_keys.extend(op.__dask_keys__())
+                keys = op.__dask_keys__()
+                all_keys.extend(keys)
+                positions.extend(op.operand("positions") or [None] * len(keys))
             else:
                 all_keys.append(op.__dask_keys__())
-        return all_keys
+                positions.append(None)
+        # Grouping by optimizer (see _tune_down) moves operands next to each
+        # other that were not adjacent before. Callers match the keys
+        # positionally with the collections they passed in, so every group
+        # member is put back to the position it was taken from. Operands that
+        # were not grouped keep their relative order and fill the other slots.
+        taken = {p for p in positions if p is not None}
+        free = (i for i in range(len(all_keys)) if i not in taken)
+        out = [None] * len(all_keys)
+        for pos, keys in zip(positions, all_keys):
+            out[pos if pos is not None else next(free)] = keys
+        return out
 
 
 class _ExprSequence(Expr):
